@@ -125,6 +125,9 @@ def cli_cases(draw, tier="quick"):
         ar = draw(tarimg.archives(B=4096, max_entries=5))
         case["archive"] = ar
         case["codec"] = draw(st.sampled_from([None, None, None, "gzip", "xz", "zstd", "bzip2"]))
+        # option subsets change which code sees the (damaged) entries: no xattr writer with -x, another root with -r, ...
+        case["t2s_opts"] = draw(st.lists(st.sampled_from(["-x", "-x", "-k", "-s", "-e", "-T", "-S", "-r:d", "-r:a", "-E:*a*", "-j:1"]), unique=True, max_size=4))
+        case["t2s_opts"] = [y for x in case["t2s_opts"] for y in x.split(":")]
         if what == "damage":
             case["edits"] = draw(st.lists(st.tuples(st.sampled_from(["flip", "zero", "ff", "splice", "dup", "del", "num", "mrec", "mrec", "mswap"]), st.floats(0, 1), st.integers(0, 255),
                                                      st.integers(1, 64)), min_size=1, max_size=4))
@@ -329,7 +332,7 @@ def check_case(case, opts):
             else:
                 bad = apply_edits(wire, [e for e in case["edits"] if e[0] not in ("mrec", "mswap")])
                 desc = "archive (%s) damaged by %s" % (case["codec"] or "plain", ",".join(e[0] for e in case["edits"]))
-            r = vcommon.run([t2s, "-q", "-c", "gzip", "-b", "4096", out], stdin=bad, timeout=30)
+            r = vcommon.run([t2s, "-q", "-c", "gzip", "-b", "4096"] + list(case.get("t2s_opts") or []) + [out], stdin=bad, timeout=30)
             img = judge(r, out, "tar2sqfs on " + desc)
             return CaseInfo(len(bad) >= 512, [what, "codec_%s" % (case["codec"] or "none"), "rc_%d" % r.rc])
         if what.startswith("graph"):
